@@ -3,6 +3,7 @@
 package main
 
 import (
+	"io"
 	"bytes"
 	"fmt"
 	"strconv"
@@ -124,6 +125,9 @@ func (isolateComp) Exec(op string) (string, string, string, bool) {
 	if f[1] == "stalltarget" {
 		chans["sink"] = "unix-noread"
 	}
+	if f[1] == "refusedmid" {
+		chans["big"] = "source:6291456:5"
+	}
 	rig, err := NewRig(RigOpts{Carrier: f[0], Insecure: true, Channels: chans})
 	if err != nil {
 		return "fail:rig", err.Error(), "fail", false
@@ -151,7 +155,46 @@ func (isolateComp) Exec(op string) (string, string, string, bool) {
 		return "fail", "connection B: " + err.Error(), f[0], false
 	}
 	defer b.Close()
+	var bigDone chan string
 	switch f[1] {
+	case "refused", "refusedmid":
+		// A stays open; meanwhile a connection arrives on another listener of the same client whose channel the server
+		// does not offer (it is refused).  With refusedmid a third connection D is in the middle of receiving 6 MiB
+		// from its target: it must get all of it, then end-of-stream.
+		defer a.Close()
+		if _, err := rig.AddAppListener("nochan"); err != nil {
+			return "fail:rig", err.Error(), "fail", false
+		}
+		if f[1] == "refusedmid" {
+			d, err := rig.Dial("big")
+			if err != nil {
+				return "fail", "connection D: " + err.Error(), f[0], false
+			}
+			defer d.Close()
+			if _, err := readFullDeadline(d, 100000, dl); err != nil {
+				return "fail", "connection D: first 100000 bytes: " + err.Error(), f[0], false
+			}
+			bigDone = make(chan string, 1)
+			go func() {
+				_ = d.SetReadDeadline(time.Now().Add(40 * time.Second))
+				rest, err := io.ReadAll(d)
+				want := payload(5, 6291456)
+				if err != nil || 100000+len(rest) != len(want) || !bytes.Equal(rest, want[100000:]) {
+					bigDone <- fmt.Sprintf("connection D received %d of %d bytes before end-of-stream (err=%v) after a connection on another listener was refused", 100000+len(rest), len(want), err)
+					return
+				}
+				bigDone <- ""
+			}()
+		}
+		for i := 0; i < 2; i++ {
+			x, err := rig.Dial("nochan")
+			if err == nil {
+				_ = x.SetReadDeadline(time.Now().Add(5 * time.Second))
+				_, _ = x.Write([]byte("hello?"))
+				_, _ = io.ReadAll(x)
+				x.Close()
+			}
+		}
 	case "clean":
 		a.Close()
 	case "rst":
@@ -179,13 +222,30 @@ func (isolateComp) Exec(op string) (string, string, string, bool) {
 		return "fail", fmt.Sprintf("a new connection failed after connection A ended (%s): %v", f[1], err), f[0] + " " + f[1], false
 	}
 	c.Close()
+	if bigDone != nil {
+		select {
+		case why := <-bigDone:
+			if why != "" {
+				return "fail", why, f[0] + " " + f[1], false
+			}
+		case <-time.After(45 * time.Second):
+			return "fail", "connection D never saw end-of-stream", f[0] + " " + f[1], false
+		}
+	}
+	if f[1] == "refused" || f[1] == "refusedmid" {
+		// the long-open connection A has survived too
+		if err := echoAgain(a, 64, 77, dl); err != nil {
+			return "fail", fmt.Sprintf("connection A broke after a connection on another listener was refused: %v", err), f[0] + " " + f[1], false
+		}
+	}
 	return "ok", "", f[0] + " " + f[1], true
 }
 
 func (isolateComp) Gen(r *Rand, tier string, emit func(string)) {
-	for _, e := range []string{"clean", "rst", "flood", "stalltarget"} {
+	for _, e := range []string{"clean", "rst", "flood", "stalltarget", "refused", "refusedmid"} {
 		emit("tcp " + e)
 	}
+	emit("ws refusedmid")
 	emit("ws stalltarget")
 	emit("ws rst")
 	emit("stdio rst")
